@@ -4,6 +4,8 @@
 # equality proofs (Lemmas/BodiesEq.lean) rebuilt.  A proof that breaks on one of them would make the check report
 # `no-failing-input-found` on code whose behaviour is unchanged; the proofs are kept robust against all of these.
 cd "$(dirname "$0")/.." || exit 2
+# a scratch sink: extract.py REPLACES its --json target by rename, so it must never be given /dev/null
+SINK=$(mktemp /tmp/micro_sink.XXXXXX)
 C=/root/work/micro_repo
 OUTS="--out lean/AioMySensors/Generated/Bodies.lean --stream-out lean/AioMySensors/Generated/StreamBodies.lean --codec-out lean/AioMySensors/Generated/CodecBodies.lean --mqtt-out lean/AioMySensors/Generated/MqttBodies.lean --persist-out lean/AioMySensors/Generated/PersistBodies.lean"
 MODS="AioMySensors.Lemmas.BodiesEq AioMySensors.Lemmas.StreamBodiesEq AioMySensors.Lemmas.CodecBodiesEq AioMySensors.Lemmas.MqttBodiesEq AioMySensors.Lemmas.PersistBodiesEq"
@@ -16,16 +18,16 @@ for t in json.load(open('tools/ties.json')):
     print(t['name']+': '+(r.stdout.strip().split('\\n')[-1] if r.stdout.strip() else 'exit %d'%r.returncode)[:110])
 " "$1" | tr '\n' ' '; }
 rm -rf "$C"; mkdir -p "$C"; (cd /repo && git archive HEAD) | tar -x -C "$C"
-(cd "$C" && git init -q && git add -A >/dev/null 2>&1 && git -c user.email=x@x -c user.name=x commit -qm base >/dev/null)
+(cd "$C" && git init -q && git add -A >"$SINK.out" 2>&1 && git -c user.email=x@x -c user.name=x commit -qm base >"$SINK.out")
 for d in seeded/micro-refactors/*.diff; do
   git -C "$C" checkout -q -- .; git -C "$C" apply "$(pwd)/$d" || { echo "$d: does not apply"; continue; }
-  /venv/bin/python tools/extract.py --repo "$C" --out lean/AioMySensors/Generated/Tables.lean --json /root/work/.micro_tables.json >/dev/null 2>&1
-  t=$(/venv/bin/python tools/translate.py --repo "$C" $OUTS --snapshot tools/bodies_snapshot.json --json /dev/null | cut -c1-140)
+  /venv/bin/python tools/extract.py --repo "$C" --out lean/AioMySensors/Generated/Tables.lean --json "$SINK" >"$SINK.out" 2>&1
+  t=$(/venv/bin/python tools/translate.py --repo "$C" $OUTS --snapshot tools/bodies_snapshot.json --json "$SINK" | cut -c1-140)
   x=$(xtranslate "$C")
   if (cd lean && lake build $MODS $XMODS >/tmp/micro.log 2>&1); then r="equalities hold"; else r="EQUALITY BROKEN: $(grep -m2 'error:' /tmp/micro.log | tr '\n' ' ' | cut -c1-200)"; fi
   echo "$(basename "$d" .diff): $t | $x-> $r"
 done
-rm -rf "$C" /tmp/micro.log
+rm -rf "$C" /tmp/micro.log "$SINK" "$SINK.out"
 /venv/bin/python tools/extract.py --repo /repo --out lean/AioMySensors/Generated/Tables.lean --json tools/tables.json | tail -1
 /venv/bin/python tools/translate.py --repo /repo $OUTS --snapshot tools/bodies_snapshot.json --json tools/bodies_status.json | cut -c1-60
 xtranslate /repo; echo
